@@ -1,5 +1,5 @@
 import AkVerif.Lemmas.TemplatesDenote
-import AkVerif.Lemmas.TemplatesJsonPlain
+import AkVerif.Lemmas.TemplatesLink
 /-!
 # C05 — list, map and sequence templates return exactly the denoted items
 
@@ -262,15 +262,29 @@ theorem lines_cut_at_newline_only :
   ⟨by decide, fun s h => by simp [strLines, splitOn_no_sep _ s h], fun s => splitOn_mem_no_sep _ s,
    fun s => splitOn_join _ s⟩
 
-/-- **A parser object has no memory between `parse` calls** (model side): whatever calls were made before on the same
-constructed parser — accepted texts, texts that raise `ParsingError` — the result of a call is that of the call alone.
-In the model this holds by construction (`parseClean` is a function of the parser and the lexemes); it is a property of
-the real object only through the correspondence, which therefore issues call *sequences* on one parser object,
-including calls that fail in the tokenizer (unclosed multi-line comment, foreign character) before valid texts. -/
-theorem parse_has_no_memory (T : TParser) (fuel : Nat) (before : List (List (Name × List Char)))
-    (raw : List (Name × List Char)) :
-    ((before ++ [raw]).map fun r => T.parseClean r fuel).getLast? = some (T.parseClean raw fuel) := by
-  simp
+/-- **Sequences, as executed.** `seq_items` speaks about `flattenSeq`; the driver (and `parseRaw` / `parseClean`) run
+`toVal` on the tree of the parse loop. For the derivation tree of a sequence symbol (`SeqTree`: `SEQ -> SEQ__ELEMENT SEQ |
+()`, the element symbol not itself a sequence symbol) `toVal` returns exactly what `flattenSeq` returns for the
+un-flattened element tree: the leaf whose value is the list of the converted matched elements, in source order. -/
+theorem seq_items_executed (seqSyms : List Name) (n : LL.Sym) (hn : n.name ∈ seqSyms) (t : LL.Tree LL.Sym)
+    (xs : List (LL.Tree LL.Sym)) (h : SeqTree seqSyms n t xs) (vs : List Val) (hvs : toVals seqSyms xs = .ok vs) :
+    ∃ u, SeqShape n.name u vs ∧ toVal seqSyms t = flattenSeq u ∧
+      toVal seqSyms t = .ok (.elem n.name true (.list vs)) :=
+  toVal_seq seqSyms n hn t xs h vs hvs
+
+/-- **One constructor model.** Whenever C05's constructor model `constructT` succeeds, the LL model's constructor for
+dictionaries with templates (`LL.constructG`, the object of the theorems of C01–C03), fed with the productions and the
+template bookkeeping that `expandGrammar` computes, succeeds with the very same parser (terminals, skip set, start symbol,
+user and factorised dictionaries, suffix symbols, nullables, FIRST, FOLLOW, table). Hypothesis: the iteration order
+handed in for `AnyTokenExcept` lists names without `__` (terminals). `constructT` adds `ListProds.verify_grammar` and the
+cleanuper on top. -/
+theorem constructor_is_ll_constructor (groups : List Name) (syn : List (Name × Name)) (skip : Option (List Name))
+    (start : Name) (smart : Bool) (keep termOrder : List Name) (entries : List (Name × GramEntry)) (TP : TParser)
+    (hterms : ∀ t ∈ termOrder, LL.hasDunder t = false)
+    (h : constructT groups syn skip start smart keep termOrder entries = .ok TP) :
+    ∃ ex, expandGrammar termOrder entries {} = .ok ex ∧
+      LL.constructG ⟨ex.tmplKeys, ex.genSyms⟩ ⟨groups, syn, [], skip, start, ex.prods, smart⟩ = .ok TP.ll :=
+  constructT_constructG groups syn skip start smart keep termOrder entries TP hterms h
 
 /-- **Squashing around container items.** A squashable symbol (all its rules have at most one symbol) that is not
 in `keep_symbols` disappears around a container item: cleaning `name[x]` with `for_container=True` is cleaning `x`
